@@ -25,10 +25,9 @@ theorem isAcceptable_eq (as : List AcceptInst) : isAcceptable as = acceptable as
     rw [ih]
     unfold acceptable
     simp only [List.any_cons, acceptableInstance, hasUnsupportedParams, ← not_any_ne_profile, bne]
-    generalize a.params.any (fun k => !(k == "profile")) = p
-    generalize (a.media == jsonApiMediaType) = m
-    generalize rest.any acceptableInstance = q
-    cases m <;> cases a.err <;> cases p <;> simp
+    by_cases hp : (a.params.any fun k => !(k == "profile")) = true <;>
+      by_cases hm : (a.media == jsonApiMediaType) = true <;>
+      by_cases he : a.err = true <;> simp [hp, hm, he]
 
 /-! ## B. Member names and the query-parameter grammar -/
 
@@ -67,5 +66,187 @@ theorem memberName_eq (n : List Char) : validateMemberName n = memberName n := b
           obtain ⟨x, hx, hn⟩ := this
           exact ⟨x, hx, by simp [hn]⟩
         rw [this, hall']; simp
+
+theorem nameChar_not_bracket {c : Char} (h : nameChar c = true) : c ≠ '[' ∧ c ≠ ']' := by
+  constructor <;> (intro hc; subst hc; revert h; decide)
+
+theorem memberName_all {n : List Char} (h : memberName n = true) : ∀ c ∈ n, nameChar c = true := by
+  unfold memberName at h
+  split at h
+  · simp only [Bool.and_eq_true] at h
+    exact List.all_eq_true.mp h.2
+  · simp at h
+
+theorem memberName_no_open {n : List Char} (h : memberName n = true) : '[' ∉ n :=
+  fun hm => (nameChar_not_bracket (memberName_all h _ hm)).1 rfl
+
+theorem memberName_no_close {n : List Char} (h : memberName n = true) : ']' ∉ n :=
+  fun hm => (nameChar_not_bracket (memberName_all h _ hm)).2 rfl
+
+theorem splitOn_ne_nil (sep : Char) (l : List Char) : splitOn sep l ≠ [] := by
+  induction l with
+  | nil => simp [splitOn]
+  | cons c cs ih =>
+    unfold splitOn
+    split
+    · simp
+    · split <;> simp
+
+theorem splitOn_not_mem (sep : Char) (a : List Char) (h : sep ∉ a) : splitOn sep a = [a] := by
+  induction a with
+  | nil => rfl
+  | cons c cs ih =>
+    have hc : (c == sep) = false := by
+      simp only [List.mem_cons, not_or] at h
+      simpa using fun e => h.1 e.symm
+    have := ih (fun hm => h (List.mem_cons_of_mem _ hm))
+    simp [splitOn, hc, this]
+
+theorem splitOn_append (sep : Char) (a b : List Char) (h : sep ∉ a) :
+    splitOn sep (a ++ sep :: b) = a :: splitOn sep b := by
+  induction a with
+  | nil => simp [splitOn]
+  | cons c cs ih =>
+    have hc : (c == sep) = false := by
+      simp only [List.mem_cons, not_or] at h
+      simpa using fun e => h.1 e.symm
+    have := ih (fun hm => h (List.mem_cons_of_mem _ hm))
+    simp [splitOn, hc, this]
+
+theorem splitOn_join (sep : Char) (l f : List Char) (ps : List (List Char)) (h : splitOn sep l = f :: ps) :
+    l = f ++ ps.flatMap (fun p => sep :: p) := by
+  induction l generalizing f ps with
+  | nil => simp [splitOn] at h; obtain ⟨rfl, rfl⟩ := h; rfl
+  | cons c cs ih =>
+    unfold splitOn at h
+    split at h
+    · rename_i hc
+      have hc' : c = sep := by simpa using hc
+      obtain ⟨rfl, rfl⟩ := List.cons.inj h
+      cases hs : splitOn sep cs with
+      | nil => exact absurd hs (splitOn_ne_nil _ _)
+      | cons f' ps' =>
+        have := ih f' ps' hs
+        simp [hc', this]
+    · split at h
+      · rename_i hs; exact absurd hs (splitOn_ne_nil _ _)
+      · rename_i p ps' hs
+        obtain ⟨rfl, rfl⟩ := List.cons.inj h
+        have := ih p ps' hs
+        simp [this]
+
+theorem dropLast_append_of_getLast? {l : List Char} {a : Char} (h : l.getLast? = some a) :
+    l.dropLast ++ [a] = l := by
+  have hne : l ≠ [] := by intro e; simp [e] at h
+  have h2 := List.dropLast_concat_getLast hne
+  rw [List.getLast?_eq_some_getLast hne] at h
+  simp at h
+  rw [h] at h2; exact h2
+
+theorem partOK_iff (p : List Char) : partOK p = true ↔ ∃ n, p = n ++ [']'] ∧ memberName n = true := by
+  unfold partOK
+  constructor
+  · intro h
+    split at h
+    · simp at h
+    · rename_i last hl
+      simp only [Bool.and_eq_true, beq_iff_eq, memberName_eq] at h
+      refine ⟨p.dropLast, ?_, h.2⟩
+      have := dropLast_append_of_getLast? hl
+      rw [← h.1]; exact this.symm
+  · rintro ⟨n, rfl, hn⟩
+    simp [memberName_eq, hn]
+
+theorem parts_to_names (parts : List (List Char)) (h : ∀ p ∈ parts, partOK p = true) :
+    ∃ names : List (List Char), parts.flatMap (fun p => '[' :: p) = names.flatMap bracket ∧
+      (∀ n ∈ names, memberName n = true) := by
+  induction parts with
+  | nil => exact ⟨[], rfl, by simp⟩
+  | cons p ps ih =>
+    obtain ⟨names, h1, h2⟩ := ih (fun q hq => h q (List.mem_cons_of_mem _ hq))
+    obtain ⟨n, rfl, hn⟩ := (partOK_iff p).mp (h p (by simp))
+    refine ⟨n :: names, ?_, ?_⟩
+    · simp [bracket, h1]
+    · intro m hm
+      rcases List.mem_cons.mp hm with rfl | hm
+      · exact hn
+      · exact h2 m hm
+
+theorem splitOn_grammar (names : List (List Char)) (hn : ∀ n ∈ names, memberName n = true)
+    (a : List Char) (ha : '[' ∉ a) :
+    splitOn '[' (a ++ names.flatMap bracket) = a :: names.map (fun n => n ++ [']']) := by
+  induction names generalizing a with
+  | nil => simpa using splitOn_not_mem '[' a ha
+  | cons n ns ih =>
+    have hn' : '[' ∉ n ++ [']'] := by
+      have := memberName_no_open (hn n (by simp))
+      simp [this]
+    have := ih (fun m hm => hn m (List.mem_cons_of_mem _ hm)) (n ++ [']']) hn'
+    simp only [List.flatMap_cons, bracket, List.map_cons]
+    rw [show a ++ (('[' :: n ++ [']']) ++ ns.flatMap bracket) = a ++ '[' :: ((n ++ [']']) ++ ns.flatMap bracket) by simp]
+    rw [splitOn_append '[' a _ ha]
+    rw [this]
+
+theorem all_lower_iff (family : List Char) :
+    family.all isLowerAlpha = true ↔ ¬ ∃ c ∈ family, ¬ ('a' ≤ c ∧ c ≤ 'z') := by
+  simp only [List.all_eq_true, isLowerAlpha, Bool.and_eq_true, decide_eq_true_eq]
+  constructor
+  · rintro h ⟨c, hc, hn⟩; exact hn (h c hc)
+  · intro h c hc
+    exact Classical.byContradiction (fun hn => h ⟨c, hc, hn⟩)
+
+/-- The handler's query-key check decides exactly the declarative grammar. -/
+theorem keyRejected_false_iff (k : List Char) : keyRejected k = false ↔ Supported k := by
+  constructor
+  · intro h
+    unfold keyRejected at h
+    split at h
+    · simp at h
+    · rename_i family parts hs
+      have hk := splitOn_join _ _ _ _ hs
+      split at h
+      · simp at h
+      · rename_i hparts
+        split at h
+        · simp at h
+        · rename_i hfam
+          have hparts' : ∀ p ∈ parts, partOK p = true := by
+            intro p hp
+            have : ¬ (parts.any (fun p => !partOK p) = true) := hparts
+            rw [List.any_eq_true] at this
+            cases hq : partOK p with
+            | true => rfl
+            | false => exact absurd ⟨p, hp, by simp [hq]⟩ this
+          obtain ⟨names, h1, h2⟩ := parts_to_names parts hparts'
+          have hfam' : memberName family = true := by
+            rw [← memberName_eq]; simpa using hfam
+          refine ⟨family, names, ⟨by rw [hk, h1], hfam', h2⟩, ?_⟩
+          split at h
+          · left
+            split at h
+            · rename_i hp; simpa [pageFamily] using hp
+            · simp at h
+          · rename_i hl
+            right
+            exact Classical.byContradiction (fun hn => hl ((all_lower_iff family).mpr hn))
+  · rintro ⟨family, names, ⟨rfl, hfam, hnames⟩, hres⟩
+    unfold keyRejected
+    rw [splitOn_grammar names hnames family (memberName_no_open hfam)]
+    simp only
+    have hparts : (names.map (fun n => n ++ [']'])).any (fun p => !partOK p) = false := by
+      rw [List.any_eq_false]
+      intro p hp
+      obtain ⟨n, hn, rfl⟩ := List.mem_map.mp hp
+      have := (partOK_iff (n ++ [']'])).mpr ⟨n, rfl, hnames n hn⟩
+      simp [this]
+    rw [hparts, memberName_eq, hfam]
+    simp only [Bool.false_eq_true, if_false, Bool.not_true]
+    rcases hres with rfl | hc
+    · have : ("page".toList == pageFamily) = true := by decide
+      split
+      · simp
+      · rfl
+    · have : ¬ (family.all isLowerAlpha = true) := fun h => (all_lower_iff family).mp h hc
+      simp [this]
 
 end ApiFu.C19
